@@ -10,6 +10,7 @@ mod menu;
 mod sweep;
 mod iana;
 mod props;
+mod reexport;
 mod refmodel;
 mod util;
 mod wire;
@@ -46,6 +47,9 @@ fn main() {
                 "C04" => props::c04::run(tier),
                 "C05" => props::c05::run(tier),
                 "C08" => props::c08::run(tier),
+                "C09" => props::c09::run(tier),
+                "C10" => props::c10::run(tier),
+                "C14" => props::c14::run(tier),
                 _ => {
                     eprintln!("unknown property {}", id);
                     2
